@@ -49,13 +49,33 @@ def save_replay(prop, tag, payload):
 
 def body(prop, cfg, tier, seed, replay, scratch, violations, known_hits, notes, t0):
     ev_cov = {}
+    # ---------------------------------------------------------------- translator tie: regenerate the table model from the source
+    gen_broken = []
+    if cfg.get("gen_tables"):
+        r = lpv.run([sys.executable, os.path.join(os.path.dirname(os.path.abspath(__file__)), "translate_tables.py")])
+        ev_cov["translator"] = (r.stdout or "").strip().splitlines()[-1:] if r.stdout else []
+        if r.returncode != 0:
+            gen_broken.append("translator tools/translate_tables.py: " + (r.stdout or "")[-300:].strip())
+            notes.append("table translator failed on the current source")
     # ---------------------------------------------------------------- Lean: build + audit
     targets = cfg.get("lean_targets", []) + ["lpdriver"]
     ok, broken, out = lpv.lean_build(targets)
-    proof_broken = []
+    proof_broken = list(gen_broken)
+    if ok and gen_broken:
+        ok = False
+    if cfg.get("gen_tables") and (not ok) and any("GenTables" in b for b in broken):
+        # the generated tables no longer match the model: enumerate the finite domain for the differing entries
+        lpv.lake(["build", "LP.Gen.SignCondition", "LP.Model.Feasible", "LP.Model.IntervalPoly"])
+        r = lpv.lake(["env", "lean", "--run", "Gen/TableDiff.lean"])
+        mism = [l for l in (r.stdout or "").splitlines() if l.startswith("MISMATCH")]
+        if mism:
+            p = save_replay(prop, "table-entry", {"kind": "table-entry-differs-from-model", "property": prop, "entries": mism[:40],
+                                                   "how": "python3 tools/translate_tables.py && cd lean && lake env lean --run Gen/TableDiff.lean"})
+            print("VIOLATION property=%s replay=%s" % (prop, p))
+            violations.append(p)
     if not ok:
         drv_ok = os.path.exists(lpv.driver_exe())
-        proof_broken = broken or ["lake build failed: " + out[-400:]]
+        proof_broken = proof_broken + (broken or ([] if gen_broken else ["lake build failed: " + out[-400:]]))
         notes.append("lean build failed: %s" % "; ".join(proof_broken[:5]))
         if not drv_ok:
             p = save_replay(prop, "lean-build", {"kind": "lean-build-failed", "errors": proof_broken, "log_tail": out[-3000:]})
